@@ -42,6 +42,7 @@ class FnInfo:
     rewrites: List[str] = field(default_factory=list)
     lost: List[str] = field(default_factory=list)     # annotations whose anchor is gone in the current source (left out)
     auto_added: bool = False                          # helper pulled in automatically (no contract)
+    assumed_clauses: List[str] = field(default_factory=list)   # contract clauses that are assumed, not proved, for this function
     gen_start: int = 0         # byte offsets in the generated file
     gen_end: int = 0
     verus_name: str = ''       # module path name Verus reports
@@ -242,8 +243,11 @@ def _drop_inserts() -> set:
     return getattr(_TLS, 'inserts', set())
 
 
-def _render_block(blk: ClauseBlock, indent: str, fn_label: str) -> List[Seg]:
+def _render_block(blk: ClauseBlock, indent: str, fn_label: str, mode: str = 'body') -> List[Seg]:
     segs = []
+    if mode != 'stub' and any(c.assumed for c in blk.clauses):
+        # assumed clauses exist only at the call sites (contract-only stubs); at the definition they are not claimed
+        blk = ClauseBlock([c for c in blk.clauses if not c.assumed])
     if _drop_clauses():
         kept = ClauseBlock([c for c in blk.clauses if (fn_label, c.label) not in _drop_clauses()])
         blk = kept
@@ -386,8 +390,9 @@ def extract_fn(unit: str, file: str, item: str, mode: str, contracts, canary: bo
     sig_segs: List[Seg] = []
     if c and c.sig.clauses:
         sig_segs.append(Seg('\n', {'kind': 'glue'}))
-        sig_segs += _render_block(c.sig, '    ', fn_label)
-        info.clauses += c.sig.clauses
+        sig_segs += _render_block(c.sig, '    ', fn_label, mode)
+        info.clauses += [cl_ for cl_ in c.sig.clauses if mode == 'stub' or not cl_.assumed]
+        info.assumed_clauses = [cl_.label for cl_ in c.sig.clauses if cl_.assumed]
 
     if mode == 'stub':
         if c and c.stubsig:
